@@ -559,5 +559,11 @@ def r09_vlq(ctx):
         o.rule = 'R09.4'
 
 
-RULES = [('R09-vlq', r09_vlq), ('R09-registry', r09_registry), ('R09.3', r09_3), ('R09.1', r09_1), ('R09-tables', r09_tables), ('R09.2', r09_2),
+def r09_codec(ctx):
+    """Text payloads go through encode_string/decode_string: their bodies (shared with C17 R17.4)."""
+    from . import c17
+    ctx.borrow(c17.r17_4, 'R09.7')
+
+
+RULES = [('R09-vlq', r09_vlq), ('R09.7', r09_codec), ('R09-registry', r09_registry), ('R09.3', r09_3), ('R09.1', r09_1), ('R09-tables', r09_tables), ('R09.2', r09_2),
          ('R09.4', r09_4), ('R09.5', r09_5), ('R09.6', r09_6)]
